@@ -330,6 +330,19 @@ func (e *Engine) intrinsic(fr *frame, fn *ssa.Function, args []Value, c *ssa.Cal
 		// the text is a function of symbolic input (not a constant)
 		sv := args[0].(*StringV)
 		return e.tt.Bool(!e.normStr(sv).conc)
+	case "RaceRecord":
+		on := args[0].(*Term) == e.tt.True
+		if e.race == nil {
+			e.race = &raceRec{groups: map[*Cell][]int{}}
+		}
+		e.race.enabled = on
+		return nil
+	case "RaceCheck":
+		id, _ := e.goString(args[0])
+		if e.race != nil {
+			e.raceFinish(id)
+		}
+		return nil
 	case "AllocLimit":
 		e.allocLimit = int(e.mustConst(args[0].(*Term), "AllocLimit"))
 		return nil
@@ -991,6 +1004,9 @@ func icMutexLock(e *Engine, fr *frame, fn *ssa.Function, args []Value, c *ssa.Ca
 		panic(pathEnd{"deadlock", "Lock of a locked mutex (sequential mode)"})
 	}
 	st.v = e.tt.Const(32, 1)
+	if e.raceOn() {
+		e.raceAdd('a', st, e.curPos(), false, 0)
+	}
 	return nil, true
 }
 
@@ -1005,6 +1021,9 @@ func icMutexUnlock(e *Engine, fr *frame, fn *ssa.Function, args []Value, c *ssa.
 		panic(gp)
 	}
 	st.v = e.tt.Const(32, 0)
+	if e.raceOn() {
+		e.raceAdd('l', st, e.curPos(), false, 0)
+	}
 	if e.threads != nil {
 		e.threads.unlock(e, st)
 	}
@@ -1020,11 +1039,22 @@ func icOnceDo(e *Engine, fr *frame, fn *ssa.Function, args []Value, c *ssa.CallC
 	} else {
 		vc = done
 	}
+	if e.raceOn() {
+		e.raceAdd('r', vc, e.curPos(), true, 0) // atomic load of done
+	}
 	if vc.v.(*Term).lo != 0 {
 		return nil, true
 	}
+	mst := fieldCell(e, &Pointer{cell: fieldCell(e, args[0].(*Pointer), "m")}, "state")
+	if e.raceOn() {
+		e.raceAdd('a', mst, e.curPos(), false, 0)
+	}
 	vc.v = e.tt.Const(32, 1)
 	e.invoke(fr, args[1], nil, nil, nil)
+	if e.raceOn() {
+		e.raceAdd('w', vc, e.curPos(), true, 0) // atomic store of done
+		e.raceAdd('l', mst, e.curPos(), false, 0)
+	}
 	return nil, true
 }
 
@@ -1048,6 +1078,9 @@ func icWGAdd(e *Engine, fr *frame, fn *ssa.Function, args []Value, c *ssa.CallCo
 func icWGDone(e *Engine, fr *frame, fn *ssa.Function, args []Value, c *ssa.CallCommon) (Value, bool) {
 	ctr := wgCounter(e, args[0].(*Pointer))
 	ctr.v = e.tt.Bin(OpSub, ctr.v.(*Term), e.c64(1))
+	if e.raceOn() {
+		e.raceAdd('s', ctr, e.curPos(), false, 0)
+	}
 	if e.threads != nil {
 		e.threads.yield(e, "wg.Done")
 	}
@@ -1063,19 +1096,26 @@ func icWGWait(e *Engine, fr *frame, fn *ssa.Function, args []Value, c *ssa.CallC
 	if ctr.v.(*Term).lo != 0 {
 		panic(pathEnd{"deadlock", "WaitGroup.Wait with non-zero counter (sequential mode: goroutines not scheduled)"})
 	}
+	if e.raceOn() {
+		e.raceAdd('W', ctr, e.curPos(), false, 0)
+	}
 	return nil, true
 }
 
 func icAtomicAdd(e *Engine, fr *frame, fn *ssa.Function, args []Value, c *ssa.CallCommon) (Value, bool) {
 	p := args[0].(*Pointer)
-	old := e.load(p, nil, token.NoPos).(*Term)
+	e.raceAtomic = true
+	defer func() { e.raceAtomic = false }()
+	old := e.load(p, nil, e.curPos()).(*Term)
 	nv := e.tt.Bin(OpAdd, old, args[1].(*Term))
-	e.store(p, nv, nil, token.NoPos)
+	e.store(p, nv, nil, e.curPos())
 	return nv, true
 }
 
 func icAtomicLoad(e *Engine, fr *frame, fn *ssa.Function, args []Value, c *ssa.CallCommon) (Value, bool) {
-	return e.load(args[0].(*Pointer), nil, token.NoPos), true
+	e.raceAtomic = true
+	defer func() { e.raceAtomic = false }()
+	return e.load(args[0].(*Pointer), nil, e.curPos()), true
 }
 
 func icErrgroupGo(e *Engine, fr *frame, fn *ssa.Function, args []Value, c *ssa.CallCommon) (Value, bool) {
@@ -1090,7 +1130,8 @@ func icErrgroupGo(e *Engine, fr *frame, fn *ssa.Function, args []Value, c *ssa.C
 }
 
 func (e *Engine) runGroupFn(fr *frame, g *Pointer, f *Closure) {
-	r := e.invoke(fr, f, nil, nil, nil).(*Iface)
+	var r *Iface
+	e.raceSpawn(g.cell, e.curPos(), func() { r = e.invoke(fr, f, nil, nil, nil).(*Iface) })
 	errc := fieldCell(e, g, "err")
 	if r.typ != nil && errc.v.(*Iface).typ == nil {
 		errc.v = r
@@ -1105,6 +1146,7 @@ func icErrgroupWait(e *Engine, fr *frame, fn *ssa.Function, args []Value, c *ssa
 			e.runGroupFn(fr, g, ps[i])
 		}
 	}
+	e.raceJoin(g.cell, e.curPos())
 	return fieldCell(e, g, "err").v, true
 }
 
